@@ -370,6 +370,7 @@ func wideWorkloads(r *vlib.Run, g *vlib.Rng) (ws []Workload) {
 		rollover("rollover", rollMax, 7, false, nil),
 		rollover("rollover-restarts", rollMax, 6, true, nil),
 	)
+	ws = append(ws, bulkWorkloads(r.Thorough())...)
 	if r.Thorough() {
 		ws = append(ws,
 			failedReorg("failed-reorg-deep", true, 2, 3, []bool{false, true}),
@@ -410,6 +411,8 @@ func (h *Harness) wideCounters(w Workload, wr *WlRun) {
 		} else {
 			r.Hit("wide:failed-reorg:reorganisation-did-not-fail")
 		}
+	case "bulk":
+		h.bulkCounters(w, wr)
 	case "save-race":
 		r.Hit("wide:save-race:" + wr.WideNote)
 	case "rollover":
